@@ -314,7 +314,16 @@ func (m *C08) OnStep(_ explore.Ghost, st *explore.Step) []V {
 				roleOK = true
 			}
 		}
-		allow = any(newIn("Classes", "ClassIssuers"), inTable("ClassSeqs"))
+		newClassKey := uint64(0)
+		if r, ok := st.Res.Resp.(*basetypes.MsgCreateClassResponse); ok {
+			if cl := post.ClassByID(r.ClassId); cl != nil {
+				newClassKey = cl.Key
+			}
+		}
+		allow = any(newIn("Classes"), inTable("ClassSeqs"), func(d rowDiff) bool {
+			// issuer rows of the class this message created, nothing else
+			return d.Table == "ClassIssuers" && isNew(d) && strings.HasPrefix(d.ID, fmt.Sprintf("%d/", newClassKey))
+		})
 		bankMayChange = true
 	case *basetypes.MsgCreateProject:
 		role = "class issuer"
